@@ -6,7 +6,8 @@
      unber <hex>   ->  <exit> <text with '\n' written as '|', or '-'>
      xxber <hex>   ->  OK <hex> | ERR:<kind> <hex written before the diagnostic>
      render_recs <records>  ->  text;   enber_recs <records>  ->  as xxber (enber on given line records)
-     spec_ser <tree>, spec_nodes <tree>   (spec side, see below) *)
+     spec_ser <tree>, spec_nodes <tree>   (spec side, see below)
+     c20_oid_arcs <6|13> <hex>  ->  number of arcs of the contents octets | fail   (plain mode's OID printer) *)
 open Model
 open Drvlib
 
@@ -130,4 +131,10 @@ let dispatch cmd args =
   | "enber_recs", toks -> Some (enber_s (enber (recs toks)))
   | "unber", [h] -> let (ls, x) = unber (bytes_of_hex h) in Some (exit_s x ^ " " ^ text_s ls)
   | "xxber", [h] -> Some (enber_s (xxber (bytes_of_hex h)))
+  | "c20_oid_arcs", [tag; h] ->
+      (* number of arcs OBJECT_IDENTIFIER_get_arcs (tag 6) / RELATIVE_OID_get_arcs (tag 13) returns on the
+         contents octets (Leaf/Oid.v), "fail" for -1: what print_V's arc buffer has to hold *)
+      (match (if tag = "6" then get_arcs (bytes_of_hex h) else reloid_get_arcs (bytes_of_hex h)) with
+       | OArcs l -> Some (string_of_int (List.length l))
+       | _ -> Some "fail")
   | _ -> None
